@@ -8,6 +8,7 @@ import (
 	"bytes"
 	"encoding/hex"
 	"encoding/json"
+	"sort"
 	"strconv"
 	"strings"
 
@@ -28,6 +29,43 @@ func generic(data []byte) string {
 	if !emit(dec, &sb) {
 		return "!"
 	}
+	return sb.String()
+}
+
+// genericSorted is generic with the top-level object's entries sorted by key: encoder
+// output is compared as a set of fields, not by the order json.Marshal happens to use.
+func genericSorted(data []byte) string {
+	if !json.Valid(data) {
+		return "!"
+	}
+	dec := json.NewDecoder(bytes.NewReader(data))
+	dec.UseNumber()
+	tok, err := dec.Token()
+	if d, ok := tok.(json.Delim); err != nil || !ok || d != '{' {
+		return generic(data)
+	}
+	type ent struct{ k, v string }
+	var ents []ent
+	for dec.More() {
+		kt, err := dec.Token()
+		k, ok := kt.(string)
+		if err != nil || !ok {
+			return "!"
+		}
+		var sb strings.Builder
+		if !emit(dec, &sb) {
+			return "!"
+		}
+		ents = append(ents, ent{k, sb.String()})
+	}
+	sort.SliceStable(ents, func(i, j int) bool { return ents[i].k < ents[j].k })
+	var sb strings.Builder
+	sb.WriteByte('{')
+	for _, e := range ents {
+		hx('k', e.k, &sb)
+		sb.WriteString(e.v)
+	}
+	sb.WriteByte('}')
 	return sb.String()
 }
 
@@ -246,9 +284,9 @@ func main() {
 				if i < 0 {
 					return "!no-version-line"
 				}
-				return "x" + hex.EncodeToString(b[:i]) + " " + generic(b[i+1:])
+				return "x" + hex.EncodeToString(b[:i]) + " " + genericSorted(b[i+1:])
 			}
-			return generic(b)
+			return genericSorted(b)
 		case 'r':
 			return dec(encode(msg, a[1:]))
 		}
